@@ -156,7 +156,7 @@ def leg_matches(tok, leg, kind):
         return ",".join(toks) == tok
     if tok == "syn":
         return None   # model makes no prediction (not a single template literal)
-    if kind == "cov":
+    if kind in ("cov", "streq"):
         return end in (None, "ok") and "s" + text.decode("utf-8", "replace").replace(" ", "_").replace("\n", "|") == tok
     if kind in ("tag", "enum", "resv"):
         return end is None and "s" + text.decode("utf-8", "replace").replace(" ", "_").replace("\n", "|") == tok
@@ -427,6 +427,17 @@ def cov_family():
     return ["cov " + n for n in COV_FAMILY]
 
 
+def streq_family():
+    """deterministic: == / != on Str — equal contents as one shared constant, constant vs run-time built,
+    run-time vs run-time; prefixes; equal length differing in the last byte with the high bit set on
+    one or both sides; byte boundaries 0x7f / 0x80 (U+0080) / 0xbf / 0xff-neighbourhood (U+00FF, U+07FF)"""
+    base = ["", "a", "abc", "caf\u00e9", "\u00e9", "\u65e5\u672c", "\U0001d538", "\x7f", "\u0080", "\u00ff", "\u07ff", "a\u0080", "x" * 40 + "\u00e9"]
+    pairs = [(x, x) for x in base]
+    pairs += [("caf", "caf\u00e9"), ("caf\u00e9", "caf"), ("", "\u00e9"), ("caf\u00e9", "caf\u00e8"), ("caf\u00e9", "cafe"), ("\x7f", "\u0080"),
+              ("\u0080", "\u00bf"), ("\u65e5\u672c", "\u65e5\u672d"), ("a\u00e9b", "a\u00e9c"), ("\u00e9a", "\u00e8a"), ("ab", "ba"), ("\U0001d538", "\U0001d539")]
+    return [f"streq {hexs(x)} {hexs(y)}" for x, y in pairs]
+
+
 def resv_family():
     """deterministic (seed-independent)"""
     return ["resv " + hexs(w) for w in JS_WORDS]
@@ -558,7 +569,7 @@ def nontrivial(line, impl_ans):
         return len(t) >= 3
     if t[0] == "veq":
         return t[1] != "-" or t[2] != "-"
-    if t[0] in ("seq", "tag", "vecr", "veqr", "enum", "resv", "cov"):
+    if t[0] in ("seq", "tag", "vecr", "veqr", "enum", "resv", "cov", "streq"):
         return True
     return False
 
@@ -966,6 +977,8 @@ def search(ctx, st):
     non-known disagreement was recorded"""
     before = len(ctx.violations)
     try:
+        # the runtime builtins first: their deterministic families name the input directly
+        check_lines(st, streq_family() + cov_family(), "search: runtime builtin families")
         check_lines(st, dense_lines(), "dense search")
     except Exception as ex:   # harness may be unusable
         st.tie_broken.append({"line": "search", "impl": repr(ex), "model": "", "detail": "search crashed", "label": ""})
@@ -1034,6 +1047,7 @@ def run(ctx):
         check_lines(st, [l for _, l in probes], "finding probes + malformed stream")
         check_lines(st, resv_family(), "JavaScript-special words as identifiers (deterministic family)")
         check_lines(st, cov_family(), "coverage-guided whole programs (deterministic family)")
+        check_lines(st, streq_family(), "== / != on Str: shared constants, run-time built operands, high-bit bytes (deterministic family)")
         if not ctx.quick:
             check_lines(st, dense_lines(), "dense")
         stats = program_oracle(ctx, st, ctx.scale(60, 1500))
